@@ -48,6 +48,22 @@ class UList(list, Rule):
     __args__ = (int,)
     unique_items = True
     max_length = 3
+class NegInt(int, Rule):
+    lt = 0
+class LeInt(int, Rule):
+    le = 5
+class Len2(str, Rule):
+    length = 2
+class MinList(list, Rule):
+    __args__ = (int,)
+    min_length = 1
+class Step(float, Rule):
+    multiple_of = 0.5
+class Dec2(Decimal, Rule):
+    decimal_places = 2
+    max_digits = 4
+class Three(int, Rule):
+    const = 3
 class Sub(Schema):
     a: int
     b: List[int] = Field(default_factory=list)
@@ -57,7 +73,9 @@ class Sub(Schema):
 TYPES = {
     "int": [3, "4", 9007199254740993], "float": [2.5, "0.5", 1e20], "str": ["ab", 5], "bool": [True, "false"], "Optional[int]": [None, 4],
     "List[int]": [[1, "2"], []], "List[str]": [["a"], []], "Dict[str, int]": [{"k": 1}, {}], "Tuple[int, str]": [(1, "a")], "Tuple[int, ...]": [(1, 2), ()],
-    "Set[int]": [{1, 2}], "PosInt": [5, "7"], "Even10": [4, "10"], "Ratio": [0.5, 0], "ShortStr": ["ab", "abc"], "PatStr": ["abc"], "UList": [[1, 2]],
+    "Set[int]": [{1, 2}], "PosInt": [1, 5, "7"], "Even10": [2, 4, "10"], "Ratio": [0.5, 0, 0.999], "ShortStr": ["a", "ab", "abc"], "PatStr": ["abc", "a"], "UList": [[1, 2], [1, 2, 3], []],
+    # values on every inclusive bound of every constraint keyword the generator maps
+    "NegInt": [-1, "-7"], "LeInt": [5, 0], "Len2": ["ab"], "MinList": [[1], [1, 2]], "Step": [1.5, 0, "2.0"], "Dec2": [D("12.34"), D("0.5"), "99.99"], "Three": [3, "3"],
     "Literal['a', 'b']": ["a"], "Color": ["r", "g"], "Union[int, str]": [3, "x"], "Union[PosInt, None]": [3, None],
     "Decimal": [D("1.5"), D("9007199254740991"), D("-9007199254740991"), D("9007199254740992"), 3], "date": ["2022-03-04"], "datetime": ["2022-03-04 10:11:12"],
     "Sub": [{"a": 1}, {"a": "2", "b": [3]}], "List[Sub]": [[{"a": 1}], []], "Dict[str, List[int]]": [{"k": [1]}], "Any": [1, "x", [1]],
